@@ -75,7 +75,38 @@ CASES = [
     ('add_pixel: caches not reset', S, '        self._smallest_index = min(self._smallest_index, index)\n        self._reset_cache()', '        self._smallest_index = min(self._smallest_index, index)', 'broken', 'C06'),
     ('to_prune: scan goes on after a hit', D, '            yield struct\n            break', '            yield struct\n            pass', 'broken', 'C07'),
     ('trunk drop: id table keeps the leaf', D, '            keep_structures.pop(leaf.idx)\n', '', 'broken', 'C07'),
+    # ---- object-level fragments (py2heap): changes of meaning
+    ('level: walk starts with diff 0', S, '                diff = 1\n', '                diff = 0\n', 'broken', 'C14'),
+    ('level: parent cache off by two', S, 'self.parent._level = self._level - 1', 'self.parent._level = self._level - 2', 'broken', 'C14'),
+    ('level: trunk level 1', S, '                self._level = 0\n', '                self._level = 1\n', 'broken', 'C02'),
+    ('level: parent level not incremented', S, 'self._level = self.parent._level + 1', 'self._level = self.parent._level', 'broken', 'C02'),
+    ('ancestor: stops one short', S, '        while self._ancestor.parent:\n            a = self._ancestor', '        while self._ancestor.parent and self._ancestor.parent.parent:\n            a = self._ancestor', 'broken', 'C14'),
+    ('ancestor: parentless returns parent', S, '        if self.parent is None:\n            return self\n\n        if not self._ancestor', '        if self.parent is None:\n            return self.parent\n\n        if not self._ancestor', 'broken', 'C02'),
+    ('ancestor: cached ancestor of a ignored', S, '            if a._ancestor:\n                self._ancestor = a._ancestor', '            if a._ancestor:\n                self._ancestor = a', 'broken', 'C14'),
+    ('descendants: leaves not filtered but branches', S, 'to_add = [b for b in children if not b.is_leaf]', 'to_add = [b for b in children if b.is_leaf]', 'broken', 'C02'),
+    ('descendants: self included', S, '            self._descendants = []\n', '            self._descendants = [self]\n', 'broken', 'C02'),
+    ('reset_cache: level kept', S, '        self._level = None\n        self._ancestor = None', '        self._ancestor = None', 'broken', 'C14'),
+    ('reset_cache: descendants kept', S, '        self._descendants = None\n', '', 'broken', 'C14'),
+    ('merge_with_parent: grandchildren keep their parent', D, '        for child in m.children:\n            child.parent = parent', '        for child in m.children:\n            pass', 'broken', 'C07'),
+    ('merge_with_parent: children not adopted', D, '        parent.children.extend(m.children)\n', '', 'broken', 'C07'),
+    ('merge_with_parent: merged structure stays a child', D, '    parent.children.remove(m)\n', '', 'broken', 'C07'),
+    ('merge: pixels not handed over', S, '        self._indices.extend(structure._indices)\n', '', 'broken', 'C07'),
+    ('merge: caches of the receiver kept', S, '        self._smallest_index = min(structure._smallest_index, self._smallest_index)\n        self._reset_cache()', '        self._smallest_index = min(structure._smallest_index, self._smallest_index)', 'broken', 'C14'),
+    ('prune: merged structure stays in the id table', D, '                del keep_structures[m.idx]\n', '                pass\n', 'broken', 'C07'),
+    ('prune: caches of survivors not reset', D, '        for structure in keep_structures.values():\n            structure._reset_cache()', '        for structure in keep_structures.values():\n            pass', 'broken', 'C14'),
+    ('make_trunk: level seeded with 1', D, '        structure._level = 0  # See', '        structure._level = 1  # See', 'broken', 'C14'),
+    ('make_trunk: trunk = structures WITH a parent', D, 'for structure in keep_structures.values() if structure.parent is None])', 'for structure in keep_structures.values() if structure.parent is not None])', 'broken', 'C02'),
+    ('Structure gets __len__', S, '    def _reset_cache(self):', '    def __len__(self):\n        return len(self._indices)\n\n    def _reset_cache(self):', 'broken', 'C14'),
     # ---- rewrites that keep the meaning
+    # ---- object-level fragments: rewrites that keep the meaning
+    ('level: is None written as not-is-not', S, '        if self._level is None:\n            if not self.parent:', '        if not (self._level is not None):\n            if not self.parent:', 'ok', 'C14'),
+    ('level: parent test by is None', S, '            if not self.parent:\n                self._level = 0', '            if self.parent is None:\n                self._level = 0', 'ok', 'C14'),
+    ('ancestor: branches swapped', S, '            if a._ancestor:\n                self._ancestor = a._ancestor\n            else:\n                self._ancestor = a.parent', '            if not a._ancestor:\n                self._ancestor = a.parent\n            else:\n                self._ancestor = a._ancestor', 'ok', 'C14'),
+    ('ancestor: cache test by is None', S, '        if not self._ancestor:\n            self._ancestor = self.parent', '        if self._ancestor is None:\n            self._ancestor = self.parent', 'ok', 'C14'),
+    ('descendants: filter by is_branch', S, 'to_add = [b for b in children if not b.is_leaf]', 'to_add = [b for b in children if b.is_branch]', 'ok', 'C02'),
+    ('merge_with_parent: is_branch as not is_leaf', D, '    if m.is_branch:\n        parent.children.extend', '    if not m.is_leaf:\n        parent.children.extend', 'ok', 'C07'),
+    ('merge_with_parent: guard by children', D, '    if m.is_branch:\n        parent.children.extend', '    if m.children:\n        parent.children.extend', 'ok', 'C07'),
+    ('reset_cache: other order', S, '        self._level = None\n        self._ancestor = None', '        self._ancestor = None\n        self._level = None', 'ok', 'C14'),
     ('wrap: sides flipped', A, 'np.where(index_array < shape/2,', 'np.where(shape/2 > index_array,', 'ok', 'C12'),
     ('two-sibling rule: >= 3', D, 'elif len(siblings) > 2:', 'elif len(siblings) >= 3:', 'ok', 'C08'),
     ('flux: De Morgan', X, 'if wavelength is not None and not wavelength.unit.is_equivalent(u.m):',
